@@ -298,8 +298,31 @@ def simulate(c, design, seed, idx):
     return "ok", {}, forced
 
 
+def library_probe(seed, idx):
+    """the read-before-write monitor on a std library design that keeps a value in the alias variable of a locally
+    constructed Signal(maybe_uninitialized=True) across states: std.axi.axi4_light with AW accepted before W"""
+    from vf.props import c20
+
+    m = {"words": 4, "entries": [{"kind": "mem", "word": 0}, {"kind": "mem", "word": 2}]}
+    design = dutm.compile_design(c20.render_src(m))  # strict classification: alias variables are intermediates
+    ops = [{"op": "w", "addr": 0, "data": 0x12345678, "strb": 15, "aw_delay": 0, "w_delay": 3, "b_ready": "high", "b_late": 0, "gap": 0}, {"op": "r", "addr": 0, "ar_delay": 0, "r_ready": "high", "r_late": 0, "gap": 0}]
+    out = dutm.guarded(lambda: c20.simulate(m, design, ops, seed, idx, False))
+    return out
+
+
 def run_one(seed, idx, tier):
-    c = CASES[idx % len(CASES)]
+    if idx % (len(CASES) + 1) == len(CASES):
+        res = {"idx": idx, "shape": "probe:std.axi", "case": {"c": "probe", "defs": [], "pre": 0, "use": "std.axi-aw-before-w", "ctx": "coro"}, "expected": "accept"}
+        out = library_probe(seed, idx)
+        res["outcome"] = "accepted"
+        if len(out) == 2 and out[0] == "rbw":
+            res.update(status="violation", vclass="rbw", detail=dict(out[1], case=res["case"]), payload={"case": res["case"], "seed": seed, "idx": idx})
+        elif len(out) == 2:
+            res.update(status="skipped", reason=str(out[0]))
+        else:
+            res.update(status="ok", paths_forced=1)
+        return res
+    c = CASES[idx % (len(CASES) + 1)]
     exp = expected(c)
     key = repr(sorted(c.items()))
     res = {"idx": idx, "shape": hashlib.sha256(key.encode()).hexdigest()[:12], "case": c, "expected": exp}
@@ -336,6 +359,9 @@ def run_one(seed, idx, tier):
 
 def replay(payload):
     c = payload["case"]
+    if c["c"] == "probe":
+        out = library_probe(payload["seed"], payload["idx"])
+        return (out[0], out[1]) if len(out) == 2 else ("ok", {})
     try:
         design = dutm.compile_design(render_src(c))
     except render.Rejected as e:
@@ -347,11 +373,13 @@ def replay(payload):
 
 
 def plan(tier):
-    return len(CASES) * (1 if tier == "quick" else 6)
+    return (len(CASES) + 1) * (1 if tier == "quick" else 6)
 
 
 def finding_key(r):
     c = (r.get("detail") or {}).get("case") or r.get("case")
+    if c and c.get("c") == "probe":
+        return f"C08:{r.get('vclass')}:{c['use']}"
     if r.get("vclass") == "accepted-value-not-defined-on-every-path" and c:
         return f"C08:accepted:{c['c']}:defs={''.join(map(str, c['defs']))}:pre={c['pre']}:use={c['use']}:{c['ctx']}"
     return None
